@@ -112,7 +112,7 @@ IsRootCopy(n) == n # RootName /\ cert[n].kind = "x509" /\ cert[n].key = RootName
 SetWindow(n, w) == /\ cert[n].kind = "x509" /\ cert[n].win = "all" /\ ~IsRootCopy(n)
                    /\ cert' = [cert EXCEPT ![n].win = w, ![n].time = TimeAt(w, Clk)] /\ UNCHANGED rot
 \* the root of trust's own certificate has a window too (nothing in C07 depends on it, see ValidIffP)
-SetRootWindow(w) == /\ rot.win = "all" /\ \A n \in DOMAIN cert : ~IsRootCopy(n)
+SetRootWindow(w) == /\ rot.win = "all" /\ rot.kind = "x509" /\ \A n \in DOMAIN cert : ~IsRootCopy(n)
                     /\ rot' = [rot EXCEPT !.win = w, !.time = TimeAt(w, Clk)] /\ UNCHANGED cert
 BadSig(n)      == /\ cert[n].sigBy # "other" /\ ~IsRootCopy(n)
                   /\ cert' = [cert EXCEPT ![n].sigBy = "other"] /\ UNCHANGED rot
@@ -136,6 +136,8 @@ WrongRoot      == /\ rot.key = RootName
                   /\ \/ rot' = [rot EXCEPT !.key = "wrong"]
                      \/ rot' = [rot EXCEPT !.key = cert[XNames[1]].key, !.curve = cert[XNames[1]].curve]
                      \/ HasForeign /\ rot' = [rot EXCEPT !.key = "foreign"]
+                     \* a root of trust of ANOTHER KIND (a version-1 root: a bare secp256k1 key)
+                     \/ rot.win = "all" /\ rot' = [rot EXCEPT !.kind = "v1root", !.key = "wrong", !.curve = "Other"]
                   /\ UNCHANGED cert
 \* the chain hangs from the foreign root: its top element is signed by the foreign root's key
 ForgeTop       == /\ HasForeign /\ cert[XNames[1]].sigBy = RootName
@@ -163,14 +165,37 @@ RootReappears(n) ==
                    ELSE cert[m]]
     /\ UNCHANGED rot
 
+\* A FORGED BRANCH under an element of another kind.  The chain stays genuine and certifies a genuine
+\* attestation key "gatt" (and, for k = "quote", a genuine quote "gquote" signed by it); an X.509 element
+\* "evil" names that non-X.509 element as its certifier (self-signed / really signed by gatt's key / by
+\* a stranger), and the attestation key and the target quote hang from "evil".  An X.509 element is
+\* valid only under the X.509 certificate that certifies it, so the target is not valid.
+GraftNames == {"gatt", "gquote", "evil"}
+Graft(k, sg) ==
+    LET xd == cert["att"].by IN
+    /\ "gatt" \notin DOMAIN cert /\ "spare" \notin DOMAIN cert /\ RootName \notin DOMAIN cert /\ len = "asis"
+    /\ IsChainX(xd) /\ xd \in DOMAIN cert /\ cert["att"].sigBy = cert[xd].key
+    /\ (sg = "certifier") => (k = "attkey")
+    /\ LET under == IF k = "attkey" THEN "gatt" ELSE "gquote"
+           names == DOMAIN cert \cup {"gatt", "evil"} \cup (IF k = "quote" THEN {"gquote"} ELSE {})
+       IN cert' = [n \in names |->
+             IF n = "gatt" THEN [AttEl(xd) EXCEPT !.key = "gatt", !.sigBy = cert[xd].key]
+             ELSE IF n = "gquote" THEN [QuoteEl("gatt") EXCEPT !.sigBy = "gatt"]
+             ELSE IF n = "evil" THEN X509El(under, "evil", IF sg = "self" THEN "evil"
+                                                      ELSE IF sg = "certifier" THEN "gatt" ELSE "other")
+             ELSE IF n = "att" THEN [cert[n] EXCEPT !.by = "evil", !.sigBy = "evil"]
+             ELSE cert[n]]
+    /\ UNCHANGED rot
+
 Mutate == /\ phase = "env" /\ ndef < MaxDefects
           /\ nren > 0 => ndef < MaxWithRename
           /\ UNCHANGED nren
-          /\ \/ \E n \in DOMAIN cert :
+          /\ \/ \E n \in DOMAIN cert \ GraftNames :
                   \/ \E w \in Windows \ {"all"} : SetWindow(n, w)
                   \/ BadSig(n) \/ OtherCurve(n) \/ Unbind(n) \/ BadKey(n) \/ RootReappears(n)
                   \/ \E m \in DOMAIN cert \cup {RootName, Ghost} : n \notin {"spare", RootName} /\ Reparent(n, m)
              \/ WrongRoot \/ ForgeTop
+             \/ \E k \in {"attkey", "quote"}, sg \in {"self", "certifier", "other"} : Graft(k, sg)
              \/ \E w \in Windows \ {"all"} : SetRootWindow(w)
           /\ ndef' = ndef + 1
           /\ UNCHANGED <<scale, len, tz, clks, outs, sysv, obsv>>
@@ -270,7 +295,7 @@ Shift == /\ phase = "env" /\ ndef < MaxDefects /\ ndef < MaxWithRename /\ nren <
 \* length; the FULL concrete path is what TLC judges in TraceCertV2.
 Lengthen == /\ phase = "env" /\ ndef < MaxDefects /\ ndef < MaxWithRename /\ nren < MaxRenames
             /\ len = "asis" /\ XNames[2] \in DOMAIN cert
-            /\ "spare" \notin DOMAIN cert /\ RootName \notin DOMAIN cert
+            /\ "spare" \notin DOMAIN cert /\ RootName \notin DOMAIN cert /\ "gatt" \notin DOMAIN cert
             /\ len' = "long"
             /\ ndef' = ndef + 1 /\ nren' = nren + 1
             /\ UNCHANGED <<cert, rot, scale, tz, clks, outs, sysv, obsv>>
@@ -301,7 +326,7 @@ Tick == /\ phase = "done" /\ outcome # "loaderror" /\ Len(clks) < MaxRounds /\ T
 \* another case.  Names only link elements; no verdict may depend on how they are spelt.
 Labels == {"plain", "sub", "odd"}
 Relabel == /\ phase = "env" /\ ndef < MaxDefects /\ ndef < MaxWithRename /\ nren < MaxRenames
-           /\ \E n \in DOMAIN cert \ {RootName}, l \in Labels \ {"plain"} :
+           /\ \E n \in DOMAIN cert \ ({RootName} \cup GraftNames), l \in Labels \ {"plain"} :
                  /\ cert[n].label = "plain" /\ cert' = [cert EXCEPT ![n].label = l]
            /\ ndef' = ndef + 1 /\ nren' = nren + 1
            /\ UNCHANGED <<rot, scale, len, tz, clks, outs, sysv, obsv>>
